@@ -102,3 +102,70 @@ def optchar_eq(fact):
             except ValueError:
                 return None
     return None
+
+
+class FirstIter:
+    """FIRST-ITERATION: recognises tests for "this is the first pass through iterator loop lm".
+    Forms: the index of an `.enumerate()` source compared with 0 (== 0, > 0, != 0, >= 1, < 1);
+    a bool flag whose value on loop entry is a constant c and which every continuing path sets
+    to !c (or leaves at !c); a usize counter starting at 0 that every continuing path increments.
+    `source` is the iterated sequence without the enumerate adapter, `element` the element term."""
+
+    def __init__(self, prog, body, lm):
+        from .sym import sym_of
+        from .paths import loop_state_vars, loop_system, entry_value
+        from .poly import poly, Poly
+        self.prog, self.body, self.lm = prog, body, lm
+        self.idx = None
+        self.flags = {}      # phi term -> constant meaning "first"
+        self.counters = set()
+        src = lm.source
+        if src is not None and src[0] == "call" and src[1] == "Iterator::enumerate" and len(src[2]) == 1:
+            self.source = src[2][0]
+            self.idx = lm.item_proj(0)
+            self.element = lm.item_proj(1)
+        else:
+            self.source = src
+            self.element = lm.item
+        s = sym_of(body)
+        sv = loop_state_vars(body, lm, types=("bool", "usize"))
+        if sv:
+            trans = [t for t in loop_system(prog, body, lm, list(sv.keys()), []) if t.kind == "back"]
+            for pk, (nm, ty) in sv.items():
+                phi = s.val_entry(pk, lm.header)
+                init = entry_value(prog, body, lm, pk)
+                if init is None:
+                    continue
+                if ty == "bool" and init[0] == "bool":
+                    c0 = init[1]
+                    ok = bool(trans)
+                    for tr in trans:
+                        nx = tr.next[pk]
+                        if nx == ("bool", not c0):
+                            continue
+                        if nx == phi and any(a == ("b", phi) and pol == (not c0) for a, pol in tr.facts):
+                            continue
+                        ok = False
+                    if ok:
+                        self.flags[phi] = c0
+                if ty == "usize" and init == ("int", 0):
+                    if trans and all(poly(tr.next[pk]) == poly(phi) + Poly.const(1) for tr in trans):
+                        self.counters.add(phi)
+
+    def verdict(self, facts):
+        """True: the facts say first iteration; False: a later one; None: undecided."""
+        from .poly import fact_nf, poly, GE0, Poly
+        out = None
+        counters = set(self.counters)
+        if self.idx is not None:
+            counters.add(self.idx)
+        nfs = {fact_nf(f) for f in facts if f[0][0] == "cmp"}
+        for c in counters:
+            if GE0(-poly(c)) in nfs:
+                out = True
+            if GE0(poly(c) - Poly.const(1)) in nfs:
+                out = False
+        for atom, pol in facts:
+            if atom[0] == "b" and atom[1] in self.flags:
+                out = (pol == self.flags[atom[1]])
+        return out
